@@ -3,24 +3,25 @@ package ops
 import (
 	"fmt"
 	"math"
+	"strconv"
 	"strings"
 )
 
 // ---- generator of the generator-supported class (DESIGN.md 4.3) ----
 
 type gSig struct {
-	name            string
-	geo             Geo
-	signed, flt     bool
-	mux, muxed      bool
-	muxVal          int
-	factor, offset  string
-	min, max        string
-	unit            string
-	vds             [][2]string
-	def             int64
-	hasDef          bool
-	recv            []string
+	name           string
+	geo            Geo
+	signed, flt    bool
+	mux, muxed     bool
+	muxVal         int
+	factor, offset string
+	min, max       string
+	unit           string
+	vds            [][2]string
+	def            int64
+	hasDef         bool
+	recv           []string
 }
 
 func (s *gSig) kind() (signed bool, width int, isBool, isFloat bool) {
@@ -784,9 +785,76 @@ func specialDbcs() []string {
 	// send types and node groups; a message without send type, no nodes
 	add("BO_ 6 MsgF: 8 NodeA\n SG_ SigA : 0|8@1+ (1,0) [0|0] \"\" NodeB\nBO_ 7 MsgG: 8 NodeB\n SG_ SigB : 0|8@1+ (1,0) [0|0] \"\" NodeA,NodeB\nBO_ 8 MsgH: 2 Vector__XXX\n SG_ SigC : 0|8@1+ (1,0) [0|0] \"\" Vector__XXX\n" + attrs +
 		"BA_ \"GenMsgSendType\" BO_ 6 \"Cyclic\";\nBA_ \"GenMsgCycleTime\" BO_ 6 100;\nBA_ \"GenMsgSendType\" BO_ 7 \"Event\";\n")
+	out = append(out, rangeGridDbc(hdr, attrs))
 	out = append(out, "VERSION \"\"\nNS_ :\nBS_:\nBU_:\nBO_ 9 MsgI: 0 Vector__XXX\n")
 	out = append(out, "VERSION \"\"\nNS_ :\nBS_:\nBU_: NodeA\n")
 	return out
+}
+
+// rangeGridDbc: the physical-accessor decision for unscaled signals (factor 1, offset 0) on a grid of declared ranges:
+// each bound below / equal to / inside / above the representable bound, for unsigned, signed and float32 signals of
+// either sign character -- one signal per grid point
+func rangeGridDbc(hdr, attrs string) string {
+	var sb strings.Builder
+	sb.WriteString(hdr)
+	id, n := 20, 0
+	var valtypes []string
+	type kind struct {
+		tag, sign  string
+		L          int
+		mins, maxs []string
+	}
+	f32 := "3.4028234663852886e+38"
+	kinds := []kind{
+		{"U", "+", 8, []string{"0", "10", "-5", "255"}, []string{"255", "254", "300", "1e10", "0"}},
+		{"S", "-", 8, []string{"-128", "-127", "-200", "0", "5"}, []string{"127", "126", "200", "0", "1e10"}},
+		{"W", "+", 13, []string{"0", "1"}, []string{"8191", "8190", "8192"}},
+		{"X", "-", 13, []string{"-4096", "-4095", "-4097"}, []string{"4095", "4094", "4096"}},
+		{"F", "+", 32, []string{"-" + f32, "-1e10", "-2147483648", "-2147483649", "-100", "0", "-3.5e38"}, []string{f32, "1e10", "2147483647", "2147483648", "100", "4294967295", "3.5e38"}},
+		{"G", "-", 32, []string{"-" + f32, "-1e10", "-2147483648", "-2147483649", "-100", "0", "-3.5e38"}, []string{f32, "1e10", "2147483647", "2147483648", "100", "4294967295", "3.5e38"}},
+	}
+	for _, k := range kinds {
+		per := 64 / k.L
+		if k.L == 13 {
+			per = 4
+		}
+		cnt := 0
+		for _, mi := range k.mins {
+			for _, ma := range k.maxs {
+				if mi == "0" && ma == "0" {
+					continue
+				}
+				if a, _ := strconv.ParseFloat(mi, 64); true {
+					if b, _ := strconv.ParseFloat(ma, 64); a > b {
+						continue // min <= max in the class
+					}
+				}
+				if cnt%per == 0 {
+					id++
+					fmt.Fprintf(&sb, "BO_ %d Grid%s%d: 8 NodeA\n", id, k.tag, id)
+				}
+				name := fmt.Sprintf("Sig%s%d", k.tag, n)
+				n++
+				fmt.Fprintf(&sb, " SG_ %s : %d|%d@1%s (1,0) [%s|%s] \"\" NodeB\n", name, (cnt%per)*strideOf(k.L), k.L, k.sign, mi, ma)
+				if k.L == 32 {
+					valtypes = append(valtypes, fmt.Sprintf("SIG_VALTYPE_ %d %s : 1;\n", id, name))
+				}
+				cnt++
+			}
+		}
+	}
+	sb.WriteString(attrs)
+	for _, v := range valtypes {
+		sb.WriteString(v)
+	}
+	return sb.String()
+}
+
+func strideOf(L int) int {
+	if L == 13 {
+		return 16
+	}
+	return L
 }
 
 func genC11(g *G) {
